@@ -410,7 +410,7 @@ pub fn c15a_case(ex: &mut Expander, tape: &Vec<u32>, st: &mut Stats) -> Result<(
     let items = proj::mod_items(sv);
     let nparams = p.contract.generics.len();
     st.class(&format!("params:{nparams}"));
-    let names = render::param_names(nparams);
+    let names = render::param_names(&p);
     let mut shapes = BTreeSet::new();
     for kind in [Kind::Instantiate, Kind::Exec, Kind::Query, Kind::Sudo, Kind::Migrate] {
         if !kind.is_enum() && !p.has_kind(0, kind) {
